@@ -2,6 +2,7 @@ package main
 
 import (
 	"fmt"
+	"google.golang.org/protobuf/reflect/protoreflect"
 	"net/url"
 	"regexp"
 	"strings"
@@ -44,6 +45,11 @@ func runC03(cfg *vh.Config) error {
 	}
 	em := &emitter{cf: &vh.CasesFile{Header: envHeader(targets), Type: "deccase", Check: "dec_check"}, res: res, perShd: 250}
 	distinct := vh.Distinct{}
+	// the schema conditions of the theorems, once per environment
+	for _, t := range targets {
+		em.add("CEnv "+t.Name, "environment", map[string]any{"target": t.Env.Root}, map[string]any{"env": t.Name})
+		em.caseNo++
+	}
 	r := cfg.R
 	byName := map[string]*target{}
 	for _, t := range targets {
@@ -59,6 +65,32 @@ func runC03(cfg *vh.Config) error {
 		return vh.Pick(r, targets)
 	}
 
+	// every call goes through the worker process; a call that does not come back is a failure with its input,
+	// and after maxHard of them nothing more is run
+	dec := func(t *target, doc []byte, stream string) (obs, bool) {
+		if tripped() {
+			res.Count(stream + ": not run (the run stopped after calls that did not return)")
+			return obs{}, false
+		}
+		o := decodeJSON(t, doc)
+		if o.hard() {
+			res.Fail(hardFailure("C03", "JSONToProto", em.caseNo, stream, map[string]any{"target": t.Env.Root, "json": short(doc)}, o))
+			em.caseNo++
+		}
+		return o, o.usable()
+	}
+	decQ := func(t *target, q url.Values, stream string) (obs, bool) {
+		if tripped() {
+			return obs{}, false
+		}
+		o := decodeQuery(t, q)
+		if o.hard() {
+			res.Fail(hardFailure("C03", "QueryToProto", em.caseNo, stream, map[string]any{"target": t.Env.Root, "query": q.Encode()}, o))
+			em.caseNo++
+		}
+		return o, o.usable()
+	}
+
 	// exact: the decoded message against the independent reading of the document
 	checkExact := func(t *target, tree *codecgen.J, doc []byte, o obs, stream string, extra string) {
 		rd := codecgen.Read(t.Env, tree)
@@ -71,7 +103,9 @@ func runC03(cfg *vh.Config) error {
 			res.Fail(vh.Failure{Case: em.caseNo, Stream: stream, Sig: "C03 decoder panics in " + o.Site, Clause: "decoding succeeds or is rejected with an error", Input: input, Got: o.Panic})
 		case "ok":
 			if rd.Verdict == codecgen.MustReject {
-				res.Fail(vh.Failure{Case: em.caseNo, Stream: stream, Sig: fmt.Sprintf("C03 accepted although not representable: %s", rd.Why), Clause: "a member that cannot be represented in its target field is rejected", Input: input, Got: "decoded to " + short([]byte(codecgen.MsgTerm(o.Msg))), Want: "error (" + rd.Why + " at " + rd.Where + ")"})
+				res.Fail(vh.Failure{Case: em.caseNo, Stream: stream, Sig: fmt.Sprintf("C03 accepted although not representable: %s", rd.Why), Clause: "a member that cannot be represented in its target field is rejected", Input: input, Got: "decoded to " + short([]byte(o.term())), Want: "error (" + rd.Why + " at " + rd.Where + ")"})
+			} else if o.Msg == nil {
+				res.Count("exactness not judged: decoded message not transferable from the worker")
 			} else if !rd.Incomparable {
 				if d := codecgen.Diff(rd.Msg, o.Msg); d != "" {
 					res.Fail(vh.Failure{Case: em.caseNo, Stream: stream, Sig: "C03 stored message differs from what the document denotes: " + diffClass(d), Clause: "every non-null member is stored with exactly the value it denotes", Input: input, Got: d})
@@ -91,6 +125,9 @@ func runC03(cfg *vh.Config) error {
 		tree *codecgen.J
 	}
 	for i := 0; i < nBase; i++ {
+		if tripped() {
+			break
+		}
 		t := pickTarget()
 		g := codecgen.NewGen(r, t.Env)
 		g.Canonical = true
@@ -98,7 +135,10 @@ func runC03(cfg *vh.Config) error {
 		g.PropChance = vh.Pick(r, []int{8, 20, 35, 60})
 		tree := g.Root()
 		doc := []byte(tree.Print(nil))
-		o := decodeJSON(t, doc)
+		o, ran := dec(t, doc, "canonical")
+		if !ran {
+			continue
+		}
 		distinct.Add(t.Name + string(doc))
 		res.Count("canonical")
 		res.Count("canonical-outcome:" + o.Kind)
@@ -115,12 +155,15 @@ func runC03(cfg *vh.Config) error {
 		if o.Kind != "ok" {
 			continue
 		}
-		want := codecgen.MsgTerm(o.Msg)
+		want := o.term()
 		for k := 0; k < 3; k++ {
 			vt, kinds := codecgen.Respell(r, t.Env, tree)
 			st := &codecgen.Style{R: r, Spaces: r.Bool(), Unicode: r.Bool(), Shuffle: r.Bool()}
 			vdoc := []byte(vt.Print(st))
-			vo := decodeJSON(t, vdoc)
+			vo, ran := dec(t, vdoc, "variant")
+			if !ran {
+				continue
+			}
 			distinct.Add(t.Name + string(vdoc))
 			res.Count("variant")
 			res.Count("variant-outcome:" + vo.Kind)
@@ -130,7 +173,7 @@ func runC03(cfg *vh.Config) error {
 			input := map[string]any{"target": t.Env.Root, "canonical": short(doc), "variant": short(vdoc), "variations": kinds}
 			switch vo.Kind {
 			case "ok":
-				if got := codecgen.MsgTerm(vo.Msg); got != want {
+				if got := vo.term(); got != want {
 					res.Fail(vh.Failure{Case: em.caseNo, Stream: "variant", Sig: "C03 spelling variant decodes to a different message: " + culprit(r, t, tree, vt, want), Clause: "all documented alternate spellings produce the same message as the canonical spelling", Input: input, Got: firstDiff(got, want)})
 				}
 			case "err":
@@ -146,6 +189,9 @@ func runC03(cfg *vh.Config) error {
 	// ---- stream 2b: generally valid documents in mixed spellings: exactness
 	nMixed := cfg.Scale(250, 2500)
 	for i := 0; i < nMixed; i++ {
+		if tripped() {
+			break
+		}
 		t := pickTarget()
 		g := codecgen.NewGen(r, t.Env)
 		g.MaxDepth = r.Range(1, 4)
@@ -153,7 +199,10 @@ func runC03(cfg *vh.Config) error {
 		tree := g.Root()
 		st := &codecgen.Style{R: r, Spaces: r.Bool(), Unicode: r.Bool(), Shuffle: r.Bool()}
 		doc := []byte(tree.Print(st))
-		o := decodeJSON(t, doc)
+		o, ran := dec(t, doc, "mixed")
+		if !ran {
+			continue
+		}
 		distinct.Add(t.Name + string(doc))
 		res.Count("mixed")
 		res.Count("mixed-outcome:" + o.Kind)
@@ -166,13 +215,19 @@ func runC03(cfg *vh.Config) error {
 	nFault := cfg.Scale(700, 7000)
 	disagree := 0
 	for i := 0; i < nFault; i++ {
+		if tripped() || len(bases) == 0 {
+			break
+		}
 		b := vh.Pick(r, bases)
 		ft, f := codecgen.InjectFault(r, b.t.Env, b.tree)
 		if ft == nil {
 			continue
 		}
 		doc := []byte(ft.Print(nil))
-		o := decodeJSON(b.t, doc)
+		o, ran := dec(b.t, doc, "fault")
+		if !ran {
+			continue
+		}
 		distinct.Add(b.t.Name + string(doc))
 		res.Count("fault")
 		res.Count("fault:" + f.Class)
@@ -186,7 +241,7 @@ func runC03(cfg *vh.Config) error {
 		} else {
 			switch o.Kind {
 			case "ok":
-				res.Fail(vh.Failure{Case: em.caseNo, Stream: "fault", Sig: fmt.Sprintf("C03 faulted document accepted: %s (%s)", f.Class, f.Kind), Clause: "a document containing a member that cannot be represented is rejected with an error rather than partially accepted", Input: input, Got: "decoded to " + short([]byte(codecgen.MsgTerm(o.Msg))), Want: "error"})
+				res.Fail(vh.Failure{Case: em.caseNo, Stream: "fault", Sig: fmt.Sprintf("C03 faulted document accepted: %s (%s)", f.Class, f.Kind), Clause: "a document containing a member that cannot be represented is rejected with an error rather than partially accepted", Input: input, Got: "decoded to " + short([]byte(o.term())), Want: "error"})
 			case "panic":
 				res.Fail(vh.Failure{Case: em.caseNo, Stream: "fault", Sig: "C03 decoder panics in " + o.Site, Clause: "rejected with an error", Input: input, Got: o.Panic})
 			}
@@ -202,6 +257,9 @@ func runC03(cfg *vh.Config) error {
 	// ---- stream 4: two members of one unexposed proto oneof (both non-null)
 	nSib := cfg.Scale(40, 600)
 	for i := 0; i < nSib; i++ {
+		if tripped() {
+			break
+		}
 		t := pickTarget()
 		root := t.Env.Lookup(t.Env.Root)
 		var withSib []*codecgen.Prop
@@ -232,7 +290,10 @@ func runC03(cfg *vh.Config) error {
 		tree.Schema = root
 		tree.Add(a.JSON, g.Value(a.Ty, 2)).Add(b.JSON, g.Value(b.Ty, 2))
 		doc := []byte(tree.Print(nil))
-		o := decodeJSON(t, doc)
+		o, ran := dec(t, doc, "proto-oneof-siblings")
+		if !ran {
+			continue
+		}
 		distinct.Add(t.Name + string(doc))
 		res.Count("proto-oneof-siblings")
 		res.Count("proto-oneof-siblings-outcome:" + o.Kind)
@@ -244,6 +305,9 @@ func runC03(cfg *vh.Config) error {
 	// ---- stream 5: scalar values supplied as URL query parameters decode like the JSON document
 	nQuery := cfg.Scale(150, 3000)
 	for i := 0; i < nQuery; i++ {
+		if tripped() {
+			break
+		}
 		t := pickTarget()
 		root := t.Env.Lookup(t.Env.Root)
 		if root.Class != "object" {
@@ -281,8 +345,14 @@ func runC03(cfg *vh.Config) error {
 			continue
 		}
 		doc := []byte(tree.Print(nil))
-		oj := decodeJSON(t, doc)
-		oq := decodeQuery(t, q)
+		oj, ran := dec(t, doc, "query")
+		if !ran {
+			continue
+		}
+		oq, ran := decQ(t, q, "query")
+		if !ran {
+			continue
+		}
 		distinct.Add(t.Name + "q:" + q.Encode())
 		res.Count("query")
 		res.Count("query-outcome:" + oq.Kind)
@@ -290,7 +360,7 @@ func runC03(cfg *vh.Config) error {
 		if oj.Kind == "ok" {
 			switch oq.Kind {
 			case "ok":
-				if a, b := codecgen.MsgTerm(oq.Msg), codecgen.MsgTerm(oj.Msg); a != b {
+				if a, b := oq.term(), oj.term(); a != b {
 					res.Fail(vh.Failure{Case: em.caseNo, Stream: "query", Sig: "C03 query parameters decode to a different message than the JSON document: " + queryCulprit(t, tree, q), Clause: "scalar values supplied as URL query parameters produce the same message as the canonical spelling", Input: input, Got: firstDiff(a, b)})
 				}
 			case "err":
@@ -336,9 +406,9 @@ func runC03(cfg *vh.Config) error {
 			var ty *codecgen.Ty
 			wrap := func(v *codecgen.J) *codecgen.J { return v }
 			switch {
-			case p.Ty.Class == "scalar":
+			case p.Ty.Class == "scalar" || p.Ty.Class == "enum":
 				ty = p.Ty
-			case (p.Ty.Class == "array" || p.Ty.Class == "map") && p.Ty.Item.Class == "scalar":
+			case (p.Ty.Class == "array" || p.Ty.Class == "map") && (p.Ty.Item.Class == "scalar" || p.Ty.Item.Class == "enum"):
 				ty = p.Ty.Item
 				pt := p.Ty
 				if p.Ty.Class == "array" {
@@ -349,14 +419,32 @@ func runC03(cfg *vh.Config) error {
 			default:
 				continue
 			}
-			for _, lit := range boundary[ty.Kind] {
+			lits := boundary[ty.Kind]
+			if ty.Class == "enum" {
+				// every option by both names, and names that are not options: the zero option of a no_default
+				// enum is not in the schema and must be rejected like any other unknown name
+				lits = nil
+				if es := t.Env.Lookup(ty.Ref); es != nil {
+					for _, nm := range []string{"UNSPECIFIED", es.Prefix + "UNSPECIFIED", es.Prefix, "", "unspecified"} {
+						lits = append(lits, codecgen.Str(nm))
+					}
+					for _, o := range es.Options {
+						lits = append(lits, codecgen.Str(o.Name), codecgen.Str(es.Prefix+o.Name), codecgen.Str(es.Prefix+es.Prefix+o.Name), codecgen.Str(strings.ToLower(o.Name)))
+					}
+					lits = append(lits, codecgen.Num("0"), codecgen.Num("1"))
+				}
+			}
+			for _, lit := range lits {
 				v := lit.Clone()
 				v.Ty = ty
 				tree := codecgen.Obj()
 				tree.Schema = root
 				tree.Add(p.JSON, wrap(v))
 				doc := []byte(tree.Print(nil))
-				o := decodeJSON(t, doc)
+				o, ran := dec(t, doc, "boundary")
+				if !ran {
+					continue
+				}
 				distinct.Add(t.Name + string(doc))
 				res.Count("boundary")
 				res.Count("boundary-outcome:" + o.Kind)
@@ -367,9 +455,132 @@ func runC03(cfg *vh.Config) error {
 		}
 	}
 
+	// ---- stream 6b: j5 Any values: the stored j5_json is json.Compact of the text of the "value" member,
+	// byte for byte (member order, repeated members, escapes and number spellings as written)
+	nAny := cfg.Scale(120, 2000)
+	for i := 0; i < nAny; i++ {
+		if tripped() {
+			break
+		}
+		t := vh.Pick(r, []*target{byName["env_full"], byName["env_wide"]})
+		raw := codecgen.RawJSON(r, r.Range(1, 3))
+		want, err := codecgen.CompactJSON(raw)
+		if err != nil {
+			continue
+		}
+		tn := vh.Pick(r, []string{"test.schema.v1.Bar", "x", "a.b.C", ""})
+		sp := func() string {
+			if r.Chance(75) {
+				return ""
+			}
+			return vh.Pick(r, []string{" ", "\n", "  "})
+		}
+		typ := fmt.Sprintf(`"!type"%s:%s%q`, sp(), sp(), tn)
+		val := fmt.Sprintf(`"value"%s:%s%s`, sp(), sp(), raw)
+		body := typ + sp() + "," + sp() + val
+		if r.Chance(40) {
+			body = val + sp() + "," + sp() + typ
+		}
+		doc := []byte(`{` + sp() + `"j5any"` + sp() + `:` + sp() + `{` + sp() + body + sp() + `}` + sp() + `}`)
+		o, ran := dec(t, doc, "any-payload")
+		if !ran {
+			continue
+		}
+		distinct.Add(t.Name + string(doc))
+		res.Count("any-payload")
+		res.Count("any-payload-outcome:" + o.Kind)
+		input := map[string]any{"target": t.Env.Root, "json": short(doc)}
+		switch o.Kind {
+		case "panic":
+			res.Fail(vh.Failure{Case: em.caseNo, Stream: "any-payload", Sig: "C03 decoder panics in " + o.Site, Clause: "decoding succeeds or is rejected with an error", Input: input, Got: o.Panic})
+		case "err":
+			if tn != "" {
+				res.Fail(vh.Failure{Case: em.caseNo, Stream: "any-payload", Sig: "C03 any value rejected", Clause: "every non-null member is stored with exactly the value it denotes", Input: input, Got: o.Err})
+			}
+		case "ok":
+			got, gotType, found := anyPayload(o.Msg)
+			switch {
+			case o.Msg == nil:
+				res.Count("any-payload not judged: message not transferable")
+			case !found:
+				res.Fail(vh.Failure{Case: em.caseNo, Stream: "any-payload", Sig: "C03 any value not stored", Clause: "every non-null member is stored with exactly the value it denotes", Input: input, Got: "field j5any unset", Want: want})
+			case got != want:
+				res.Fail(vh.Failure{Case: em.caseNo, Stream: "any-payload", Sig: "C03 any value stored differs from the text of the member (json.Compact)", Clause: "every non-null member is stored with exactly the value it denotes", Input: input, Got: got, Want: want})
+			case gotType != tn:
+				res.Fail(vh.Failure{Case: em.caseNo, Stream: "any-payload", Sig: "C03 any type name stored differs from the \"!type\" member", Clause: "every non-null member is stored with exactly the value it denotes", Input: input, Got: gotType, Want: tn})
+			}
+		}
+		em.add(decCase(t, doc, o), "any-payload", input, map[string]any{"kind": o.Kind, "err": o.Err})
+		em.caseNo++
+	}
+
+	// ---- stream 7: timestamp texts, valid in every accepted form and near misses: the model of
+	// time.Parse(time.RFC3339, .) against the real function (the theorems about timestamps assume they agree)
+	nTime := cfg.Scale(400, 6000)
+	fixedTimes := []string{"", "Z", "2020-01-01T00:00:00Z", "2020-01-01T00:00:00z", "2020-01-01t00:00:00Z", "2020-01-01 00:00:00Z", "2020-01-01T00:00:00", "2020-01-01T00:00Z", "2020-01-01",
+		"2020-01-01T24:00:00Z", "2020-01-01T23:59:60Z", "2016-12-31T23:59:60Z", "2020-01-01T1:02:03Z", "2020-01-01T1:2:3Z", "2020-01-01T01:02:03.Z", "2020-01-01T01:02:03,5Z", "2020-01-01T01:02:03.1234567891234Z",
+		"2020-01-01T00:00:00+24:00", "2020-01-01T00:00:00+24:60", "2020-01-01T00:00:00+25:00", "2020-01-01T00:00:00-00:61", "2020-01-01T00:00:00+0000", "2020-01-01T00:00:00+00", "2020-01-01T00:00:00 00:00",
+		"0000-01-01T00:00:00Z", "0000-01-01T00:00:00+24:60", "9999-12-31T23:59:59.999999999-24:60", "10000-01-01T00:00:00Z", "+2020-01-01T00:00:00Z", "-2020-01-01T00:00:00Z", "2020-1-1T00:00:00Z",
+		"2020-02-29T00:00:00Z", "2021-02-29T00:00:00Z", "1900-02-29T00:00:00Z", "2000-02-29T00:00:00Z", "2020-04-31T00:00:00Z", "2020-00-10T00:00:00Z", "2020-13-10T00:00:00Z", "2020-01-00T00:00:00Z", "2020-01-32T00:00:00Z",
+		"2020-01-01T00:00:00Z ", " 2020-01-01T00:00:00Z", "2020-01-01T00:00:00ZZ", "2020-01-01T00:00:00.5", "2020-01-01T00:00:00.5.5Z", "2020-01-01T00:00:00.٥Z", "２０２０-01-01T00:00:00Z", "2020-01-01T00:00:00Z\x00"}
+	for i := 0; i < nTime+len(fixedTimes); i++ {
+		var s string
+		if i < len(fixedTimes) {
+			s = fixedTimes[i]
+		} else {
+			s = codecgen.TimeText(r)
+		}
+		term, ok := codecgen.TimeTerm(s)
+		res.Count("timestamp-text")
+		res.Count(fmt.Sprintf("timestamp-text accepted by time.Parse: %v", ok))
+		distinct.Add("time:" + s)
+		em.add(fmt.Sprintf("CTime %s %s", codecgen.BytesTerm(s), term), "timestamp-text", map[string]any{"text": s}, map[string]any{"time.Parse": term})
+		em.caseNo++
+		if ok && i >= len(fixedTimes) {
+			res.Sample(map[string]any{"stream": "timestamp-text", "text": s, "accepted": true}, 8)
+		}
+	}
+
+	// ---- stream 8: decimal texts: the model of decimal.NewFromString / String() (lib/Decimal.v) against the library
+	nDec := cfg.Scale(300, 4000)
+	for i := 0; i < nDec; i++ {
+		s := codecgen.DecimalText(r)
+		term, ok := codecgen.DecimalTerm(s)
+		res.Count("decimal-text")
+		res.Count(fmt.Sprintf("decimal-text accepted by decimal.NewFromString: %v", ok))
+		distinct.Add("dec:" + s)
+		em.add(fmt.Sprintf("CDecimal %s %s", codecgen.BytesTerm(s), term), "decimal-text", map[string]any{"text": s}, map[string]any{"decimal.NewFromString": short([]byte(term))})
+		em.caseNo++
+		if ok {
+			res.Sample(map[string]any{"stream": "decimal-text", "text": s, "accepted": true}, 8)
+		}
+	}
+
+	if tripped() {
+		res.Notes = append(res.Notes, fmt.Sprintf("the run stopped issuing calls after %d calls that did not return (killed worker processes); the remaining inputs were not executed", maxHard))
+	}
+	shutdownWorker()
 	res.Evaluations = em.caseNo
 	res.Distinct = len(distinct) - 1
 	return em.finish(cfg)
+}
+
+// anyPayload reads the j5any field of a decoded message: (j5_json, type_name, present).
+func anyPayload(m protoreflect.Message) (string, string, bool) {
+	if m == nil {
+		return "", "", false
+	}
+	fd := m.Descriptor().Fields().ByJSONName("j5any")
+	if fd == nil || !m.Has(fd) {
+		return "", "", false
+	}
+	a := m.Get(fd).Message()
+	jf := a.Descriptor().Fields().ByName("j5_json")
+	tf := a.Descriptor().Fields().ByName("type_name")
+	if jf == nil || tf == nil {
+		return "", "", false
+	}
+	return string(a.Get(jf).Bytes()), a.Get(tf).String(), true
 }
 
 func firstWord(s string) string {
@@ -397,7 +608,7 @@ func culprit(r *vh.Rand, t *target, canon, variant *codecgen.J, want string) str
 					probe := canon.Clone()
 					replaceEqual(probe, a, b)
 					o := decodeJSON(t, []byte(probe.Print(nil)))
-					if o.Kind != "ok" || codecgen.MsgTerm(o.Msg) != want {
+					if o.Kind != "ok" || o.term() != want {
 						seen[name] = true
 						out = append(out, name)
 					}
@@ -499,7 +710,7 @@ func queryCulprit(t *target, tree *codecgen.J, q url.Values) string {
 		one.Add(m.Key, m.Val)
 		oj := decodeJSON(t, []byte(one.Print(nil)))
 		oq := decodeQuery(t, url.Values{m.Key: q[m.Key]})
-		if oj.Kind == "ok" && (oq.Kind != "ok" || codecgen.MsgTerm(oq.Msg) != codecgen.MsgTerm(oj.Msg)) {
+		if oj.Kind == "ok" && (oq.Kind != "ok" || oq.term() != oj.term()) {
 			ty := m.Val.Ty
 			if ty == nil {
 				return m.Key
